@@ -12,6 +12,7 @@ package cluster
 
 import (
 	"encoding/json"
+	"sync"
 	"testing"
 	"time"
 
@@ -90,6 +91,75 @@ func TestClusterPool(t *testing.T) {
 			for _, ev := range evs {
 				out.Emit(ev)
 			}
+		}
+		// saturated pool: every worker is held by a command that keeps running in a workload (ExecuteWorkload holds a
+		// worker for as long as the command runs); operations that do not need the pool themselves must go through, and
+		// whatever they would have handed to the pool (the remap) is refused
+		switch in.Op.Kind {
+		case "realloc", "setnode", "addnode", "removenode", "fix", "capacity":
+		default:
+			return
+		}
+		big.WipeStore()
+		g.Reset(0, 0)
+		b, err := big.Build(&in.Scenario)
+		if err != nil || len(b.IDs) == 0 {
+			return
+		}
+		const size = 2
+		env := envOf(size)
+		pre := big.Snapshot(b.Dims)
+		pre["when"] = "pre"
+		g.Reset(0, 0)
+		g.Free = true
+		blk := make(chan struct{})
+		eng.mu.Lock()
+		eng.B = Behaviour{Output: "x\n", ExecBlock: blk}
+		eng.mu.Unlock()
+		var bw sync.WaitGroup
+		for i := 0; i < size; i++ {
+			bw.Add(1)
+			go func() {
+				defer bw.Done()
+				ch := env.Cal.ExecuteWorkload(Op("blocker"), &coretypes.ExecuteWorkloadOptions{WorkloadID: b.IDs[len(b.IDs)-1], Commands: []string{"sleep"}}, nil)
+				for range ch {
+				}
+			}()
+		}
+		time.Sleep(150 * time.Millisecond) // both commands are running: the pool is full
+		opEvs := env.Exec(&in.Scenario, b, "op", 6*time.Second)
+		env.Quiesce(3 * time.Second)
+		stuck := opEvs[len(opEvs)-1]["class"] == "hang"
+		eng.mu.Lock()
+		eng.B = Behaviour{}
+		eng.mu.Unlock()
+		close(blk)
+		bdone := make(chan struct{})
+		go func() { bw.Wait(); close(bdone) }()
+		select {
+		case <-bdone:
+		case <-time.After(3 * time.Second): // a blocker whose own task the pool refused never sees its stream closed
+		}
+		env.Quiesce(3 * time.Second)
+		big.Quiesce(3 * time.Second)
+		g.Free = false
+		run++
+		evs := []Event{pre, opEvs[0]}
+		evs = append(evs, g.Take()...)
+		mode := "pool"
+		if stuck {
+			mode = "pool-stuck"
+			env.Locks.ReleaseAll()
+		} else {
+			evs = append(evs, opEvs[1:]...)
+			post := big.Snapshot(b.Dims)
+			post["when"] = "post"
+			evs = append(evs, post)
+		}
+		AnnotateLocks(evs)
+		out.Emit(Event{"ev": "Run", "run": run, "mode": mode, "pool": size, "saturated": true, "store": StoreName(), "failAt": 0, "crashAt": 0, "scenario": in.Scenario, "ids": b.IDs})
+		for _, ev := range evs {
+			out.Emit(ev)
 		}
 	})
 	t.Logf("pool-pressure runs: %d judged, %d with too small a pool", run, hangs)
